@@ -303,17 +303,17 @@ func TestStemsAndMasks(t *testing.T) {
 	runGood(t, []goodCase{
 		{name: "hstem pairs", code: cs(10, 20, 5, 5, -30, -20, hstem, endchar),
 			hstem: []float64{10, 30, 35, 40, 10, -10}},
-		{name: "hstem continues", code: cs(10, 20, hstem, 5, 5, hstemhm, endchar),
-			hstem: []float64{10, 30, 35, 40}},
-		{name: "vstem continues", code: cs(10, 20, vstem, 5, 5, vstemhm, endchar),
-			vstem: []float64{10, 30, 35, 40}},
+		{name: "each hstem operator restarts at 0", code: cs(10, 20, hstem, 5, 5, hstemhm, endchar),
+			hstem: []float64{10, 30, 5, 10}},
+		{name: "each vstem operator restarts at 0", code: cs(10, 20, vstem, 5, 5, vstemhm, endchar),
+			vstem: []float64{10, 30, 5, 10}},
 		{name: "h and v are independent", code: cs(10, 20, hstem, 1, 2, vstem, endchar),
 			hstem: []float64{10, 30}, vstem: []float64{1, 3}},
 		{name: "fractional stems", code: cs(0.5, 20, hstem, endchar), hstem: []float64{0.5, 20.5}},
 		{name: "implicit vstem", code: cs(10, 20, hstemhm, 1, 2, 3, 4, hintmask, []byte{0xe0}, 5, 5, rmoveto, endchar),
 			ops: "H e0|M 5 5", hstem: []float64{10, 30}, vstem: []float64{1, 3, 6, 10}},
-		{name: "implicit vstem continues explicit", code: cs(10, 20, hstemhm, 1, 2, vstemhm, 3, 4, cntrmask, []byte{0xa0}, hintmask, []byte{0x40}, endchar),
-			ops: "K a0|H 40", hstem: []float64{10, 30}, vstem: []float64{1, 3, 6, 10}},
+		{name: "implicit vstem after explicit restarts at 0", code: cs(10, 20, hstemhm, 1, 2, vstemhm, 3, 4, cntrmask, []byte{0xa0}, hintmask, []byte{0x40}, endchar),
+			ops: "K a0|H 40", hstem: []float64{10, 30}, vstem: []float64{1, 3, 3, 7}},
 		{name: "mask without operands", code: cs(10, 20, hstemhm, 1, 2, vstemhm, hintmask, []byte{0xc0}, endchar),
 			ops: "H c0", hstem: []float64{10, 30}, vstem: []float64{1, 3}},
 		{name: "masks inside the path", code: cs(10, 20, hstemhm, 5, 5, rmoveto, hintmask, []byte{0x80}, 1, hlineto, hintmask, []byte{0x00}, 1, vlineto, cntrmask, []byte{0x80}, endchar),
